@@ -43,6 +43,10 @@ type c11One struct {
 	Suite     int
 	Follow    int // commands sent afterwards to check re-synchronisation
 	Seed      int64
+	// Typed: where the library has a command type of its own for the operation (Get System GUID,
+	// Get Device ID, Reserve SDR Repository, Chassis Control, Close Session) that type is
+	// used instead of the harness's raw command, and the decoded fields are compared
+	Typed bool `json:",omitempty"`
 }
 
 type c11Batch struct {
@@ -53,7 +57,7 @@ type c11Batch struct {
 	UDP       int
 }
 
-var c11Patterns = []string{"stray-only", "stray-then-right", "stale-previous", "unsolicited-twice", "reordered", "busy-stray-giveup", "encapsulated", "reflected", "stale-previous-same-cmd-value", "busy-then-stray-then-right", "lost-then-stray-then-right"}
+var c11Patterns = []string{"stray-then-bare-error", "stray-only", "stray-then-right", "stale-previous", "unsolicited-twice", "reordered", "busy-stray-giveup", "encapsulated", "reflected", "stale-previous-same-cmd-value", "busy-then-stray-then-right", "lost-then-stray-then-right"}
 
 func init() {
 	register(&Check{
@@ -126,7 +130,7 @@ func c11Exec(run *ev.Run, c ev.Case) {
 					if ci > 0 && (p == "stale-previous" || (!b.Full && (idx+pi+ci)%2 == 1)) {
 						continue // the stale reply is the real one; the quick tier halves the error-code grid
 					}
-					c11Run(run, c11One{A: a, B: bb, StrayCode: code, Pattern: p, InSession: b.InSession, Suite: (idx + pi) % 9, Follow: 3 + (idx+pi)%4, Seed: b.Seed})
+					c11Run(run, c11One{A: a, B: bb, StrayCode: code, Pattern: p, InSession: b.InSession, Suite: (idx + pi) % 9, Follow: 3 + (idx+pi)%4, Seed: b.Seed, Typed: (idx+pi+ci)%3 == 0})
 				}
 			}
 		}
@@ -221,8 +225,49 @@ func c11Run(run *ev.Run, o c11One) {
 		defer cancel()
 		var code ipmi.CompletionCode
 		var err error
+		if o.Typed {
+			var typed ipmi.Command
+			var result func() []byte
+			switch op.Name {
+			case "guid":
+				c := &ipmi.GetSystemGUIDCmd{}
+				typed, result = c, func() []byte { return c.Rsp.GUID[:] }
+			case "devid":
+				c := &ipmi.GetDeviceIDCmd{}
+				typed, result = c, func() []byte { return []byte{c.Rsp.ID} }
+			case "reserve":
+				c := &ipmi.ReserveSDRRepositoryCmd{}
+				typed, result = c, func() []byte { return []byte{byte(c.Rsp.ReservationID), byte(c.Rsp.ReservationID >> 8)} }
+			case "chassiscontrol":
+				typed, result = &ipmi.ChassisControlCmd{Req: ipmi.ChassisControlReq{ChassisControl: ipmi.ChassisControlPowerCycle}}, func() []byte { return nil }
+			case "closeother":
+				typed, result = &ipmi.CloseSessionCmd{Req: ipmi.CloseSessionReq{ID: 0x42}}, func() []byte { return nil }
+			}
+			if typed != nil {
+				pv, st := safe(func() { code, err = conn.SendCommand(ctx, typed) })
+				if err != nil || code != 0 {
+					return code, nil, err, pv, st
+				}
+				return code, result(), err, pv, st
+			}
+		}
 		pv, st := safe(func() { code, err = conn.SendCommand(ctx, cmd) })
 		return code, cmd.Rsp.Data, err, pv, st
+	}
+	// canon reduces a response body to what the typed command exposes of it
+	canon := func(op c11Op, body []byte) []byte {
+		if !o.Typed || body == nil {
+			return body
+		}
+		switch op.Name {
+		case "guid":
+			return body[:16]
+		case "devid":
+			return body[:1]
+		case "reserve":
+			return body[:2]
+		}
+		return body
 	}
 	strayBodyA := c11Body(opA, 0xe0)
 	strayMsg := func(evn *refbmc.Event) []byte {
@@ -242,6 +287,7 @@ func c11Run(run *ev.Run, o c11One) {
 	}
 	attempt := 0
 	strays := 0
+	bareDelivered := false
 	var prevReply []byte
 	switch o.Pattern {
 	case "stale-previous", "stale-previous-same-cmd-value":
@@ -271,6 +317,18 @@ func c11Run(run *ev.Run, o c11One) {
 			if attempt == 1 {
 				strays++
 				return wrap(strayMsg(last)), nil
+			}
+		case "stray-then-bare-error":
+			// the stray first; the command's own reply then is an error completion code and nothing
+			// else - not even the group extension byte / enterprise number (some BMCs cut error replies
+			// that short); the attempt after that is answered in full
+			if attempt == 1 {
+				strays++
+				return wrap(strayMsg(last)), nil
+			}
+			if attempt == 2 {
+				bareDelivered = true
+				return wrap(refbmc.BuildRsp(0x81, opB.NetFn+1, 0, 0x20, last.RqSeq, 0, opB.Cmd, 0xc1, nil)), nil
 			}
 		case "busy-then-stray-then-right", "lost-then-stray-then-right":
 			// the first attempt fails for an unrelated reason; the stray meets the second one
@@ -379,7 +437,12 @@ func c11Run(run *ev.Run, o c11One) {
 			run.Violation("C11:stray-accepted", fmt.Sprintf("%s: call succeeded (code %v, body %x) although only responses to another command were delivered", desc, code, got), cs, nil)
 			return
 		}
-		if byte(code) != rightCode || !bytes.Equal(got, wantBody) {
+		wantBody = canon(opB, wantBody)
+		if rightCode != 0 && o.Typed {
+			wantBody = nil
+		}
+		bareAccepted := bareDelivered && code == 0xc1 && len(got) == 0 // the bare error reply is a response to this command too
+		if !bareAccepted && (byte(code) != rightCode || !bytes.Equal(got, wantBody)) {
 			run.Violation("C11:stray-accepted", fmt.Sprintf("%s: returned code %v body %x, the command's own response was code %#x body %x", desc, code, got, rightCode, wantBody), cs, nil)
 			return
 		}
@@ -414,6 +477,10 @@ func c11Run(run *ev.Run, o c11One) {
 		}
 		if op.OEM && len(want) >= 3 {
 			want = want[3:]
+		}
+		want = canon(op, want)
+		if rightCode != 0 && o.Typed {
+			want = nil
 		}
 		if err != nil || byte(code) != rightCode || !bytes.Equal(got, want) {
 			run.Violation("C11:desynchronised", fmt.Sprintf("%s: follow-up command %d (%s) returned code %v err %v body %x, its own response was %x", desc, k, op.Name, code, err, got, want), cs, nil)
